@@ -14,7 +14,7 @@ RULE = ('(a) random valid configurations (1-3 connections x 1-3 protect entries,
         '(b) RESTART POINTS: a scripted two-endpoint history is cut after every micro-step, the controller object dropped and a new one built on the same kernel: '
         'same oracle. (c) ACQUIRE mapping: for every protect entry, kernel-encoded ACQUIREs with selectors at the corners of the entry (first / last address, '
         'port 0 / the entry\'s port / 65535) are fed through the real main_loop: the negotiation goes to that connection\'s peer, re-uses an established IKE_SA with '
-        'it (CREATE_CHILD_SA instead of a new IKE_SA_INIT), and the request opened by the wire shadow carries the entry\'s proposal, mode, and TSi/TSr that contain '
+        'it (CREATE_CHILD_SA instead of a new IKE_SA_INIT), and the request opened by the wire shadow carries the entry\'s proposal, mode (and the SAs then installed its lifetime), and TSi/TSr that contain '
         'the acquire\'s selector and the entry\'s selector and lie inside the entry\'s; an ACQUIRE with an unknown index emits nothing and leaves the table unchanged; a second ACQUIRE arriving while the first handshake is in flight is queued and served (two CHILD_SAs, no IKE_SA lost). '
         'distinct = configuration / restart point / acquire signatures.')
 ASSUMPTIONS = ['fake kernel: model SPD keyed by (selector, direction); NEWPOLICY of an existing key => EEXIST like Linux']
@@ -210,6 +210,7 @@ def acquire_case(ck, rng, i):
         base = dict(ca['conn']['protect'][0])
         for k_ in ('my_subnet', 'peer_subnet'):
             base.pop(k_, None)
+        base['lifetime'] = 100 + 50 * (e['index'] % 7)
         x = dict(base, index=e['index'], my_subnet=e['my_subnet'], peer_subnet=e['peer_subnet'], my_port=e['my_port'], peer_port=e['peer_port'], ip_proto=e['ip_proto'], mode=e['mode'])
         y = dict(base, index=e['index'], my_subnet=e['peer_subnet'], peer_subnet=e['my_subnet'], my_port=e['peer_port'], peer_port=e['my_port'], ip_proto=e['ip_proto'], mode=e['mode'])
         pa.append(x)
@@ -293,6 +294,14 @@ def acquire_case(ck, rng, i):
                 bad.append('protocol')
             if bad:
                 ck.violation(f"offer-after-acquire-does-not-match-the-entry:{'+'.join(bad)}", {'entry': e['index'], 'tsi': tsi, 'tsr': tsr, 'acquire': sel}, sim.case)
+            # the SAs installed for this offer carry the entry's lifetime (plus the documented 0-5 s jitter) and hard = soft + 10
+            mine = [r_ for r_ in a.kernel.requests if r_['msg'] and r_['msg']['name'] == 'NEWSA' and r_['msg']['sa']['id']['spi'] == sa_p['spi']]
+            for r_ in mine:
+                lft = r_['msg']['sa']['lft']
+                ck.count('acquire.lifetimes_checked')
+                want = pa[ents.index(e)]['lifetime']
+                if not (want <= lft['soft_add'] <= want + 5 and lft['hard_add'] == lft['soft_add'] + 10):
+                    ck.violation('installed-sa-lifetime-is-not-the-entrys', {'entry': e['index'], 'soft': lft['soft_add'], 'hard': lft['hard_add'], 'configured': want}, sim.case)
     # unknown index
     tab0 = [(id(x), x.state.name) for x in a.ctl.ike_sas]
     wire0 = len(sim.wire)
@@ -368,6 +377,7 @@ def verdict(ck):
     ck.floor('restarts with stale SAs in the kernel', c['restart.with_stale_sas'], 20)
     ck.floor('acquires sent', c['acquire.sent'], 150)
     ck.floor('offers checked', c['acquire.offers_checked'], 120)
+    ck.floor('installed lifetimes checked', c['acquire.lifetimes_checked'], 100)
     ck.floor('acquires that re-used the IKE_SA', c['acquire.reused_ike_sa'], 100)
     ck.floor('double-acquire runs', c['double_acquire.runs'], 4)
     return None
